@@ -146,6 +146,13 @@ pub fn run(sim: &Sim, prop: &str, tier: Tier) -> Outcome {
             None
         };
         wire.borrow_mut().tx = TxPolicy { placed, ..p };
+        if kind == LinkKind::Serial {
+            // what the port object says about flow control and modem status lines must not
+            // change what "sent" means
+            let mut w = wire.borrow_mut();
+            w.flow_control = sim.pick(&[0u8, 0, 1, 2]);
+            w.line_low_pct = sim.pick(&[0u32, 0, 50, 100]);
+        }
     }
 
     sim.set_sample(|| {
